@@ -1,4 +1,5 @@
 import Proofs.Lemmas.VarProgress
+import Proofs.Lemmas.VarObj
 /-!
 # C04: the random generator, the five mutation kinds and crossover produce well-formed genomes
 
@@ -524,5 +525,71 @@ example : CfgOK ⟨1, 1, [2, 2]⟩ ∧ WF.WFGenome 1 [2, 2] [⟨0,0,0⟩, ⟨2,0
 example (draws : List Nat) (r : Stack × List Nat) :
     mutateNode ⟨1, 1, [2, 2]⟩ [⟨0,0,0⟩, ⟨2,0,0⟩] (1 :: draws) ≠ .ok r :=
   node_stuck (u := [true, true]) (loc := 1) (by decide) (by decide) (by decide) (by decide) draws r
+
+
+/-! ## 10. object level: genetic age, evaluated flag, parents intact
+
+The bodies of `AGraphCrossover.__call__` / `AGraphMutation.__call__` are REGENERATED from the source as op lists
+(`Gen.Variation.crossoverOps`, `mutationOps`) and interpreted over the `AGraph` object model `AG.St` of C18
+(`Model/VariationObjOps.lean`); the mutation kinds reach the child only through the stores the translator lists in
+`Gen.Variation.storeSites`.  Parents are arguments of pure functions: they cannot be modified in the model; on the
+real objects that clause is checked by the harness (bit-identical snapshots). -/
+
+/-- the translator recognised every statement; no store in mutation.py / crossover.py bypasses the mutable view
+(class `other`), and the genetic age is written only inside a `__call__` (the crossover's) -/
+theorem gen_variation_ok :
+    Gen.Variation.problems = [] ∧
+    (Gen.Variation.storeSites.all fun s => s.2.2 != VarObj.StoreKind.other) = true ∧
+    (Gen.Variation.storeSites.all fun s => s.2.2 != VarObj.StoreKind.age || s.1 == "__call__") = true := by
+  decide
+
+/-- crossover on the objects: both children get the larger parental age, both are marked not evaluated, and their
+stacks are those of the stack-level model `Var.crossover` for the same draw -/
+theorem crossover_children {V : Type} (p1 p2 : AG.St V) (cut : Nat) (rest : List Nat)
+    (hlen : p1.cmd.length = p2.cmd.length) (h1 : 1 ≤ cut) (h2 : cut < p1.cmd.length - 1) :
+    ∃ c1 c2, VarObj.crossoverObj Gen.Variation.crossoverOps p1 p2 cut = some (c1, c2) ∧
+      c1.age = max p1.age p2.age ∧ c2.age = max p1.age p2.age ∧
+      c1.fitSet = false ∧ c2.fitSet = false ∧ c1.fit = none ∧ c2.fit = none ∧
+      crossover p1.cmd p2.cmd (cut :: rest) = .ok ((c1.cmd, c2.cmd), rest) := by
+  refine ⟨_, _, VarObjLemmas.crossoverObj_gen p1 p2 cut hlen h1 h2, rfl, rfl, rfl, rfl, rfl, rfl, ?_⟩
+  have hA : ¬ (p2.cmd.length ≤ 2) := by omega
+  have hB : cut < p2.cmd.length - 1 := by omega
+  simp [crossover, drawRange, bind, M.andThen, pure, M.ret, h1, hlen, hA, hB]
+
+/-- where numpy raises (`randint` on an empty range, slices of different length) no children are returned -/
+theorem crossover_no_children {V : Type} (p1 p2 : AG.St V) (cut : Nat)
+    (h : p1.cmd.length ≠ p2.cmd.length ∨ ¬ (1 ≤ cut ∧ cut < p1.cmd.length - 1)) :
+    VarObj.crossoverObj Gen.Variation.crossoverOps p1 p2 cut = none := by
+  rcases h with h | h
+  · exact VarObjLemmas.crossoverObj_gen_unequal p1 p2 cut h
+  · exact VarObjLemmas.crossoverObj_gen_bad_draw p1 p2 cut h
+
+/-- mutation on the objects, for whatever row stores `w` the drawn kind performs through the mutable view: the
+mutant keeps its parent's age; without a store it is an exact copy; with one it is marked not evaluated -/
+theorem mutation_child {V : Type} (parent : AG.St V) (w : VarObj.Writes) :
+    ∃ child, VarObj.mutationObj Gen.Variation.mutationOps parent w = some child ∧
+      child.age = parent.age ∧ (w = [] → child = parent) ∧
+      (w ≠ [] → child.fitSet = false ∧ child.fit = none) ∧
+      (child.cmd ≠ parent.cmd → child.fitSet = false) := by
+  refine ⟨_, VarObjLemmas.mutationObj_gen parent w, VarObjLemmas.applyWrites_age _ w, ?_, ?_, ?_⟩
+  · rintro rfl; rfl
+  · exact VarObjLemmas.applyWrites_flag _ w
+  · intro hne
+    by_cases hw : w = []
+    · subst hw; exact absurd rfl hne
+    · exact (VarObjLemmas.applyWrites_flag _ w hw).1
+
+/-- non-vacuity: two evaluated parents of ages 2 and 9, cut at row 2 -/
+example :
+    VarObj.crossoverObj (V := Nat) Gen.Variation.crossoverOps
+      { cmd := exParent, simp := [], consts := [], needsOpt := false, modified := false, useSimp := false,
+        fit := some (some 1), fitSet := true, age := 2 }
+      { cmd := exParent2, simp := [], consts := [], needsOpt := false, modified := false, useSimp := false,
+        fit := some (some 2), fitSet := true, age := 9 } 2
+    = some ({ cmd := [⟨0,0,0⟩, ⟨1,-1,-1⟩, ⟨1,-1,-1⟩, ⟨4,2,0⟩, ⟨2,0,2⟩, ⟨4,4,0⟩], simp := [], consts := [],
+              needsOpt := false, modified := true, useSimp := false, fit := none, fitSet := false, age := 9 },
+            { cmd := [⟨0,1,1⟩, ⟨6,0,0⟩, ⟨6,0,0⟩, ⟨0,1,1⟩, ⟨4,0,1⟩, ⟨2,4,4⟩], simp := [], consts := [],
+              needsOpt := false, modified := true, useSimp := false, fit := none, fitSet := false, age := 9 }) := by
+  rfl
 
 end Bingo.C04
